@@ -281,7 +281,11 @@ func Generate(family string, seed int64, idx int) Scenario {
 	case "staletn":
 		// C18/C01: a TimeoutNow delivered a second time, late (see scriptStaleTN)
 		p := &sc.P
-		p.Voters, p.NonVoters, p.Spares = pick(r, 3, 3, 5, 2), pick(r, 0, 0, 1), 0
+		p.Voters, p.NonVoters, p.Spares = pick(r, 3, 3, 5, 2, 1), pick(r, 0, 1, 1), 0
+		if p.Voters == 1 {
+			p.NonVoters = pick(r, 1, 2)
+		}
+		p.Protocol = 0
 		p.PreVoteOff = make([]bool, p.N())
 		if r.Intn(3) == 0 {
 			for i := range p.PreVoteOff {
@@ -635,6 +639,9 @@ func genCrashPoints(r *rand.Rand, sc *Scenario) {
 		p.LogCache = 0
 	}
 	p.ShutdownOnRemove = false
+	if r.Intn(4) == 0 {
+		p.StableDelayMs = pick(r, 2, 10, 30)
+	}
 	sc.AutoRestartMs = pick(r, 50, 300, 1000)
 	if r.Intn(2) == 0 {
 		// snapshots racing with membership changes on a busy FSM
@@ -744,6 +751,11 @@ func genElections(r *rand.Rand, sc *Scenario) {
 		p.PreVoteOff[i] = r.Intn(2) == 0
 	}
 	p.ShutdownOnRemove = r.Intn(4) == 0
+	if r.Intn(3) == 0 {
+		// slow stable store: the term / vote writes take a while, heartbeats (fast path) and API readers run meanwhile
+		p.StableDelayMs = pick(r, 2, 10, 30)
+		p.FastPath = true
+	}
 	sc.AutoRestartMs = pick(r, 0, 100, 500)
 	t := 2 * p.HeartbeatMs
 	sc.Steps = append(sc.Steps, Step{At: t, Act: "netfaults", V: []float64{pick(r, 0, 0.1), pick(r, 0, 0.1), pick(r, 0.3, 0.8), pick(r, 0.1, 0.4), float64(pick(r, p.ElectionMs/2, p.ElectionMs, 3*p.ElectionMs))}})
